@@ -582,6 +582,9 @@ def make_project(d, rng, kind, full=False):
         files["good2.py"] = class_lcom("A", 3) + fn_complexity("h", 3)
         files["broken_syntax.py"] = ["def broken(:", "    return ((", ""]
         files["broken_bytes.py"] = ["\x00\x01def \x02"]
+    elif kind == "only_broken":
+        # nothing can be parsed: the complexity analysis fails as a whole, the others report an empty result; a report is still written
+        files["broken_syntax.py"] = ["def broken(:", "    return ((", ""]
     for n, ls in files.items():
         with open(os.path.join(d, n), "w") as f:
             f.write("\n".join(ls) + ("\n" if ls else ""))
